@@ -172,6 +172,11 @@ def fold_consts(term, consts):
             return ("const", c["v"])
         return term
     if k == "field":
+        base = term[1]
+        if base[0] == "cdef":
+            c = consts.get(base[1])
+            if c is not None and str(term[2]) in (c.get("fields") or {}):
+                return ("const", c["fields"][str(term[2])])
         return (k, fold_consts(term[1], consts), term[2], term[3] if len(term) > 3 else None)
     if k == "variant":
         return (k, fold_consts(term[1], consts), term[2])
@@ -283,6 +288,49 @@ def check_sig_key_provenance(ctx, f, body, ename, want, forbid, prop_rule="R-FLO
                where=ch[0].where(), detail={"signature": sig})
 
 
+def expand_accessors(f, term, depth=3, max_blocks=6):
+    """Calls to small, loop-free functions of the crate whose result is a pure expression of their parameters
+    (field accessors like `PublicKey::bits`, thin wrappers) are replaced by that expression with the arguments
+    substituted: `PublicKey::bits(self)` reads `octet_slice(self.bits)…` exactly as if the caller had spelt the
+    projection itself.  Semantics-preserving (the callee body is what runs); anything else is left as the call."""
+    if depth <= 0 or not isinstance(term, tuple) or not term:
+        return term
+    k = term[0]
+    if k == "call":
+        args = tuple(expand_accessors(f, a, depth, max_blocks) for a in term[2])
+        info = term[3] if len(term) > 3 else None
+        res = (info or {}).get("res") if isinstance(info, dict) else None
+        b = f.bodies.get(res) if res else None
+        if b is not None and len(b.blocks) <= max_blocks and not b.rec.get("upvars") and \
+                not b.cycles_sccs():
+            try:
+                rt = strip_deep(sym_of(b).local(0))
+            except Exception:
+                rt = None
+            if rt is not None and not any(x[0] in ("var", "unknown", "yield", "upvar", "mvar") for x in walk(rt)):
+                mapping = {}
+                for j, a in enumerate(args):
+                    mapping[b.local_name(j + 1) or "_%d" % (j + 1)] = a
+                if all(x[1] in mapping for x in walk(rt) if x[0] == "param"):
+                    return expand_accessors(f, strip_deep(_subst(rt, mapping)), depth - 1, max_blocks)
+        return ("call", term[1], args, info)
+    if k == "field":
+        return (k, expand_accessors(f, term[1], depth, max_blocks), term[2], term[3] if len(term) > 3 else None)
+    if k == "variant":
+        return (k, expand_accessors(f, term[1], depth, max_blocks), term[2])
+    if k == "index":
+        return (k, expand_accessors(f, term[1], depth, max_blocks), expand_accessors(f, term[2], depth, max_blocks))
+    if k == "bin":
+        return (k, term[1], expand_accessors(f, term[2], depth, max_blocks), expand_accessors(f, term[3], depth, max_blocks))
+    if k in ("un",):
+        return (k, term[1], expand_accessors(f, term[2], depth, max_blocks))
+    if k == "cast":
+        return (k, expand_accessors(f, term[1], depth, max_blocks), term[2])
+    if k in ("discr", "len"):
+        return (k, expand_accessors(f, term[1], depth, max_blocks))
+    return term
+
+
 def check_key_identifier_is_sha1_of_bits(ctx, f):
     fn = "crypto::keys::PublicKey::key_identifier"
     b = f.body(fn)
@@ -295,6 +343,8 @@ def check_key_identifier_is_sha1_of_bits(ctx, f):
     detail = "no aws-lc digest call"
     for c in digs:
         a = arg_renders(c)
+        # the digested bytes, with accessor calls (`self.bits()`) read as the projection they return
+        a = [a[0], render(strip_deep(expand_accessors(f, strip_deep(s.operand(c.args[1])))))] + a[2:]
         detail = a
         ok = "SHA1_FOR_LEGACY_USE_ONLY" in a[0] and re.search(r"self\.bits", a[1]) is not None
     ctx.ob("R-FLOW", "key_identifier=sha1(bits)", ok,
